@@ -32,6 +32,7 @@ func runC18(r *Report, p *Program) {
 	c18R3(h)
 	c18R4(h)
 	gzipStreamRule(h, "R5")
+	bodyBypassRule(h, "R6", 3, nil)
 }
 
 // firstFieldTable reads the first (string) field of each element of a package-level []struct literal.
